@@ -67,6 +67,9 @@ type Config struct {
 	// GQualified: some accesses to variables are written `_G.name` (always the global of that name,
 	// whatever local is visible); the name token is then a field (Var == VarNone)
 	GQualified bool
+	// DupParams: parameter lists of up to four names with `_` placeholders, repeated names and (in colon
+	// methods) an explicit `self` (implied by Patterns)
+	DupParams bool
 	// AritySlack: assignments may have fewer or more values than targets
 	AritySlack bool
 	// BlockReturn: any block (not only function bodies) may end in `return [explist] [;]`
@@ -858,6 +861,10 @@ func (g *Gen) funcBody(depth int, methodTok int) {
 		g.scopes[len(g.scopes)-1].vars["self"] = declInfo{tok: methodTok, selfOf: methodTok}
 	}
 	np := g.intn(3, "nparams")
+	wildParams := g.cfg.Patterns || g.cfg.DupParams
+	if wildParams {
+		np = g.intn(5, "nparamsWide")
+	}
 	var pnames []string
 	for i := 0; i < np; i++ {
 		var nm string
@@ -873,10 +880,23 @@ func (g *Gen) funcBody(depth int, methodTok int) {
 				break
 			}
 		}
-		if g.cfg.Patterns && i > 0 && g.intn(5, "dupParam") == 0 {
-			nm = pnames[0]
-			if g.intn(3, "underscore") == 0 {
+		if wildParams {
+			switch k := g.intn(10, "paramKind"); {
+			case k < 2:
 				nm = "_"
+			case k < 4:
+				// repeat an earlier real name (any position, so `_` may sit in between)
+				var real []string
+				for _, p := range pnames {
+					if p != "_" {
+						real = append(real, p)
+					}
+				}
+				if len(real) > 0 {
+					nm = real[g.intn(len(real), "dupOf")]
+				}
+			case k == 4 && methodTok >= 0 && i == 0:
+				nm = "self"
 			}
 		}
 		pnames = append(pnames, nm)
